@@ -277,6 +277,13 @@ def pair_cases(shard, nshards):
                 yield {"stream": G.render(t) + G.FOLLOWER, "adj": {}}
 
 
+def fuzz_jobs(tier, seed, tag):
+    # coverage-guided campaigns (atheris): seeded corpus + dictionary, and an empty-corpus one
+    if tier == "quick":
+        return [{"kind": "fuzz", "runs": 4000, "seed": derive_seed(seed, tag, "fz", 0)}]
+    return [{"kind": "fuzz", "runs": 300000, "seed": derive_seed(seed, tag, "fz", i), "seed_corpus": i % 4 != 3, "max_total_time": 600} for i in range(16)]
+
+
 def jobs(tier, seed):
     js = [{"kind": "table", "shard": s, "nshards": 8} for s in range(8)]
     n = 1400 if tier == "quick" else 40000
@@ -285,10 +292,14 @@ def jobs(tier, seed):
     if tier == "thorough":
         for s in range(32):
             js.append({"kind": "pairs", "shard": s, "nshards": 32})
+    js += fuzz_jobs(tier, seed, "c01")
     return js
 
 
 def run_job(job, col):
+    if job["kind"] == "fuzz":
+        from ..fuzz import run_fuzz_job
+        return run_fuzz_job(job, col, PID)
     def one(case):
         fs, nt, labels = run_case_full(case)
         col.record(case, fs, nontrivial=nt, labels=labels)
